@@ -205,7 +205,15 @@ func init() {
 		components: map[string]string{"internal/pkg/archiver/ratelimiter": "real code with hook points, real time package on the synctest fake clock", "waiters / reporters": "simulated actors"},
 		rule:       "one case = one bubble: capacity in {1,2,5,20,150}, configured rate in {0.05..50}/s, 1-3 hosts, 1-4 concurrent waiters doing sequences of acquire / failure(429,403,408,425,500,503) / success with gaps from 0 to 10 simulated minutes, plus a class with failure streaks of 30-80; distinct = distinct event-log hash",
 		planFn: func(p *propDef, tier string, seed uint64, n int) []*Case {
-			return compCases("C13", "ratelimiter", n, 60, seed, nil)
+			cases := compCases("C13", "ratelimiter", n, 60, seed, nil)
+			// the pipeline's use of the limiter: throttled hosts (some on explicit ports) whose URLs are retried
+			for i := 0; i < 2*n; i++ {
+				s := mix(seed, uint64(13000+i))
+				t := scen.NewTape(s ^ 0xc13)
+				sc := scen.GenCrawl(t, scen.CrawlOpts{Prop: "C13", MinSeeds: 2, MaxSeeds: 6, Small: true, NoBadSeeds: true, RateLimit: 1, Ports: true, Faults: i%2 == 1})
+				cases = append(cases, &Case{Idx: len(cases), Seed: s, Scenario: sc, Label: "pipeline-limiter"})
+			}
+			return cases
 		}}
 	c09crawl := props["C09x"]
 	delete(props, "C09x")
